@@ -26,16 +26,6 @@ Proof.
   all: cfinish.
 Qed.
 
-Lemma eq_helper_correct l r f a b : In (l, r, f) eq_table -> in_range l a -> in_range r b ->
-  ccall Gnu f [a; b] = Oval (zb (a =? b)).
-Proof.
-  intros H Ha Hb. apply in_rangeb_spec in Ha, Hb.
-  table_cases H; injection H as <- <- <-.
-  all: csolve.
-  all: cfinish.
-Qed.
-
-
 Lemma cmp_tables_complete l r : wf_ity l -> wf_ity r -> mixed l r = true ->
   (exists f, lookup2 l r lt_table = Some f) /\
   (sgn l = true -> exists f, lookup2 l r eq_table = Some f).
